@@ -54,6 +54,24 @@ impl Delims {
             comment_end: self.ce.clone().into(),
         }
     }
+    /// Tag content must not contain a delimiter by accident (`nth(n=1))` under `(( ))`, a nested
+    /// map literal `{"a": {}}` under the default set): split two-character delimiters with a
+    /// space, replace one-character ones (they can only occur inside string literals).
+    pub fn sanitize_inner(&self, inner: &str) -> String {
+        let mut t = inner.to_string();
+        for d in [&self.bs, &self.be, &self.vs, &self.ve, &self.cs, &self.ce] {
+            let chars: Vec<char> = d.chars().collect();
+            if chars.len() == 2 {
+                let split = format!("{} {}", chars[0], chars[1]);
+                while t.contains(d.as_str()) {
+                    t = t.replace(d.as_str(), &split);
+                }
+            } else {
+                t = t.replace(d.as_str(), "?");
+            }
+        }
+        t
+    }
     fn starts(&self) -> [&str; 3] {
         [&self.bs, &self.vs, &self.cs]
     }
@@ -248,10 +266,12 @@ impl<'a> Gen<'a> {
 
     fn tag(&mut self, inner: &str) -> String {
         let (l, r) = self.ws();
+        let inner = self.cfg.delims.sanitize_inner(inner);
         format!("{}{} {} {}{}", self.cfg.delims.bs, l, inner, r, self.cfg.delims.be)
     }
     fn var(&mut self, inner: &str) -> String {
         let (l, r) = self.ws();
+        let inner = self.cfg.delims.sanitize_inner(inner);
         format!("{}{} {} {}{}", self.cfg.delims.vs, l, inner, r, self.cfg.delims.ve)
     }
     fn ws(&mut self) -> (&'static str, &'static str) {
@@ -677,7 +697,7 @@ impl<'a> Gen<'a> {
             }
             let kind = kind_of_type(p.ty.as_deref());
             let val = if self.rng.chance(1, 3) { self.expr(env, kind, depth) } else { self.safe_typed(env, kind, &p.sample) };
-            if val.starts_with('"') && !val.contains('\\') && self.rng.chance(1, 2) && val.matches('"').count() == 2 {
+            if val.starts_with('"') && val.ends_with('"') && val.len() >= 2 && !val.contains('\\') && self.rng.chance(1, 2) && val.matches('"').count() == 2 {
                 parts.push(format!("{}={}", p.name, val));
             } else if val == p.name && self.rng.chance(1, 2) {
                 parts.push(p.name.clone()); // shorthand
@@ -1195,8 +1215,13 @@ impl<'a> Gen<'a> {
         let mut comp_ids = Vec::new();
         if self.rng.below(1000) < self.cfg.components {
             let n = self.rng.range(1, 2);
+            let mut here: Vec<String> = Vec::new();
             for _ in 0..n {
                 let cname = self.rng.pick(COMP_NAMES).to_string();
+                if here.contains(&cname) {
+                    continue;
+                }
+                here.push(cname.clone());
                 // one definition per name per priority level; keep it simple: unique world-wide,
                 // except a deliberate lower-priority twin under a prefix
                 let exists = self.world.comps.iter().any(|c| c.name == cname);
@@ -1250,11 +1275,10 @@ impl<'a> Gen<'a> {
             if self.rng.chance(1, 4) {
                 src.push_str(&self.text());
             }
-            for b in &chain {
-                if self.rng.chance(1, 2) {
-                    continue;
-                }
-                self.cur_blocks.push(b.clone());
+            let overridden: Vec<String> = chain.iter().filter(|_| self.rng.chance(1, 2)).cloned().collect();
+            // reserve every name first so nested new blocks cannot collide with a later override
+            self.cur_blocks.extend(overridden.iter().cloned());
+            for b in &overridden {
                 let mut inner = env.clone();
                 inner.depth = 1;
                 inner.blocks_allowed = true;
